@@ -157,13 +157,13 @@ def fp_diff(a, b):
 _server = None
 
 
-def reference(calls):
+def reference(calls, nofork=False):
     global _server
     if _server is None or _server.poll() is not None:
         env = dict(os.environ, PYTHONHASHSEED='0', PYTHONDONTWRITEBYTECODE='1', VERIF_REPO=REPO)
         _server = subprocess.Popen([sys.executable, os.path.join(VERIF, 'vf', 'refserver.py')], stdin=subprocess.PIPE,
                                    stdout=subprocess.PIPE, env=env)
-    _server.stdin.write((json.dumps(calls) + '\n').encode('utf-8'))
+    _server.stdin.write((json.dumps({'nofork': calls} if nofork else calls) + '\n').encode('utf-8'))
     _server.stdin.flush()
     line = _server.stdout.readline()
     if not line:
@@ -195,10 +195,11 @@ class C18(Prop):
             'shape by identity) of the loaded grammars incl. generated tables, token-pattern cache, rule registries, parser_cache and '
             'every data global / class attribute of the parso package is unchanged by a second pass, whose results equal the first; '
             '(3) the same calls run in 2-6 threads through the shared grammar objects under the harness-owned line-granular baton '
-            'scheduler (schedule = drawn run lengths / next-thread choices) give the sequential results. Non-trivial: schedule with >=3 '
-            'context switches while >=2 threads are inside parse/walk/tokenize. Distinct by (calls, schedule).')
+            'scheduler (schedule = drawn run lengths / next-thread choices) give the sequential results. Three of four cases are light sibling histories: 2-3 calls where a later call gets an earlier call\'s text or a one-token '
+            'variant of it (string prefix flipped, one name/number replaced), usually the same kind of call, compared with the pristine process only. '
+            'Non-trivial: schedule with >=3 context switches while >=2 threads are inside parse/walk/tokenize; light case: two calls of one kind with different texts. Distinct by (calls, schedule).')
     assumptions = ['interleavings are sampled at source-line granularity, never enumerated; races inside one line are invisible to the baton scheduler']
-    budgets = {'quick': 800, 'thorough': 20000}
+    budgets = {'quick': 3200, 'thorough': 80000}
     time_caps = {'quick': 150, 'thorough': 1500}
     shrink_fields = ('calls', 'schedule')
     min_nontrivial_fraction = 0.2
@@ -207,15 +208,48 @@ class C18(Prop):
         close_server()
 
     def strategy(self, tier):
-        text = st.one_of(T.soup(10), T.mutated(T.corpus_window(('repo',), max_lines=8)), T.corpus_window(('repo',), max_lines=10),
-                         T.nested(8).map(lambda t: t[0]))
+        text = st.one_of(T.soup(10), T.soup(10, {'str': 5, 'num': 3}), T.mutated(T.corpus_window(('repo',), max_lines=8)),
+                         T.corpus_window(('repo',), max_lines=10), T.nested(8).map(lambda t: t[0]), T.list_context())
+        from ..gen import valid as V
+        # literal-rich and mostly well-formed, for light cases: every string prefix x quote x escape shape, numbers, names
+        lit_text = st.one_of(V.exprs(2).map(lambda e: 'x = ' + e + '\n'), V.exprs(1).map(lambda e: e + '\n'), V.stmts(1),
+                             T.soup(10, {'str': 6, 'num': 4, 'name': 4}), T.list_context())
         vers = st.lists(T.version(), min_size=1, max_size=3, unique=True)
 
         @st.composite
         def case(draw):
             vs = draw(vers)
-            n = draw(st.integers(2, 6))
-            calls = [[draw(st.sampled_from(KINDS)), draw(st.sampled_from(vs)), draw(text)] for _ in range(n)]
+            # three of four cases are *light*: 2-3 sibling calls, compared with the pristine process only (no second pass, no
+            # threads) - cheap enough to run thousands of them
+            light = draw(st.integers(0, 3)) != 0
+            n = draw(st.integers(2, 3)) if light else draw(st.integers(2, 6))
+            kinds = st.just('all') if light else st.sampled_from(KINDS)      # 'all': every kind of call on the text
+            txt = st.one_of(lit_text, lit_text, text) if light else text
+            calls = [[draw(kinds), draw(st.sampled_from(vs)), draw(txt)] for _ in range(n)]
+            # sibling calls: a later call gets (a small variant of) an earlier call's text - what a process-wide memo keyed
+            # too coarsely (by text but not version / kind of literal / kind of call) needs in order to answer wrongly
+            for i in range(1, n):
+                how = draw(st.integers(3, 5)) if light else draw(st.integers(0, 5))
+                if how <= 2:
+                    continue
+                j = draw(st.integers(0, i - 1))
+                src = calls[j][2]
+                if draw(st.integers(0, 2)) != 0:
+                    calls[i][0] = calls[j][0]         # usually the same kind of call: that is what shares a memo
+                if how == 4:
+                    ms = list(re.finditer(r'''(?i)(?<![A-Za-z0-9_'"\\])(?:rb|br|rf|fr|[bruf])?(?=['"])''', src))
+                    if ms:
+                        m_ = ms[draw(st.integers(0, len(ms) - 1))]
+                        src = src[:m_.start()] + draw(st.sampled_from(['', 'b', 'r', 'u', 'f', 'rb', 'B', 'R'])) + src[m_.end():]
+                elif how == 5:
+                    ms = list(re.finditer(r'\b\d+\b|\b[A-Za-z_]\w*\b', src))
+                    if ms:
+                        m_ = ms[draw(st.integers(0, len(ms) - 1))]
+                        src = src[:m_.start()] + draw(st.sampled_from(['0', '1', 'x', 'None', 'print', 'async', 'match'])) + src[m_.end():]
+                calls[i][2] = src
+            if light:
+                return {'calls': calls, 'light': True, 'pristine': True, 'fresh_grammars': False, 'stress': False, 'cold': None,
+                        'schedule': [1]}
             return {'calls': calls, 'fresh_grammars': draw(st.integers(0, 5)) == 0, 'pristine': draw(st.integers(0, 2)) == 0,
                     'stress': tier == 'thorough' and draw(st.integers(0, 3)) == 0,
                     'cold': draw(st.sampled_from([None] * 8 + ['sequential', 'threaded'])),
@@ -233,7 +267,13 @@ class C18(Prop):
         r1 = [norm(run_call(c)) for c in calls]
         if any(isinstance(r, list) and r[:2] == ['EXC', 'RecursionError'] for r in r1):
             return Outcome(excluded='recursion-limit')
-        ref = reference(calls) if case.get('pristine', True) else r1
+        if case.get('light'):
+            # only the last call of a light history is judged: first against a process that has not seen the earlier calls
+            # (cheap, no fork), and a difference is confirmed against the forking pristine server
+            last = norm(reference(calls[-1:], nofork=True)[0])
+            ref = r1 if last == r1[-1] else [norm(x) for x in reference(calls)]
+        else:
+            ref = reference(calls) if case.get('pristine', True) else r1
         if case.get('pristine', True):
             classes.append('compared-with-pristine-process')
         for i, (a, b) in enumerate(zip(r1, ref)):
@@ -241,6 +281,10 @@ class C18(Prop):
                 fail = ('result-differs-from-pristine-process', 'call %d %s(%s): %s vs pristine %s'
                         % (i, calls[i][0], calls[i][1], short(a, 150), short(b, 150)))
                 break
+        if case.get('light'):
+            classes.append('light-sibling-history')
+            sib = any(calls[i][2] != calls[j][2] and calls[i][0] == calls[j][0] for i in range(len(calls)) for j in range(i))
+            return Outcome(fail=fail, nontrivial=sib, classes=classes, key=digest(calls), units=len(calls))
         # (2) purity: second pass leaves the fingerprint unchanged and repeats the results
         if fail is None:
             f1 = fingerprint(versions)
